@@ -83,6 +83,15 @@ def check(ctx):
     ctx.rule("I8", "test-and-set atomicity for every state-guarded row (no suspension between guard and assignment)")
     ctx.rule("I9", "extraction floor: every event named in the switch is an enum member; rows extracted >= floor")
 
+    ctx.rule("I10", "the table keeps being evaluated after a reset: the task that walks the lifecycle rows (started under the manager's own task key on entering the context) is cancelled by no other domain's cancel - in particular not by the cancel of the spa's domain that every reset performs (task registry interpreted on model tasks, C09/C10's registry model borrowed)")
+    from ..taskmodel import check_registry
+    from .c09 import driver_tasks
+    drv = driver_tasks(repo)
+    if len(drv) != 1 or not isinstance(drv[0][1], str):
+        ctx.error(f"I10: expected one driver task with a constant key started in {MAN}.__aenter__, found {[(d[0].qual, d[1]) for d in drv]}")
+    else:
+        check_registry(ctx.borrowed("I10", "C09"), repo, "R1", pump_key=drv[0][1], only=("isolation",))
+
     state_rows = [r for r in rows if r.kind == "state"]
     raise_rows = [r for r in rows if r.kind == "raise"]
     ctx.floor("I9", "state-assignment rows in _handle_event", len(state_rows), 10)
